@@ -863,8 +863,9 @@ class NonMementoFunctionHashRule(HashRule):
     ):
         # noinspection PyUnresolvedReferences
         name = obj.__module__ + ":" + obj.__qualname__
-        if getattr(obj, "__name__", None) == "<lambda>":
-            # Every lambda has the same qualified name: tell the lambdas that one function
+        if "<" in obj.__qualname__:
+            # Every lambda is called <lambda>, and all functions that one factory returns
+            # share a qualified name (factory.<locals>.inner): tell the ones that a function
             # refers to apart by the symbol each of them is bound to.
             name += "@" + symbol
         super().__init__(
